@@ -204,8 +204,6 @@ Proof.
   intros (b1 & b2 & p' & c' & E & B & _). cbn [app] in E. injection E as E1 _ _. subst b1. lia.
 Qed.
 
-Definition serialize_ok_frame (o:obj) f : Prop := serialize T o = Ok f.
-
 (* 2. C07: parsing the serialised message gives back the very same message object (for every validate option,
    every label option, and in fact every payload length for which serialize succeeds) *)
 Theorem parse_serialize_gen : forall p l o v f,
@@ -299,11 +297,3 @@ Proof.
   eexists. split; [apply construct_ok_run; eexists; eexists; split; [exact E|reflexivity]|].
   cbn. repeat split.
 Qed.
-
-Print Assumptions construct_payload.
-Print Assumptions serialize_shape.
-Print Assumptions serialize_oversize.
-Print Assumptions serialize_overflow.
-Print Assumptions parse_serialize_gen.
-Print Assumptions serialize_parse.
-Print Assumptions unknown_stub.
